@@ -105,3 +105,9 @@ def post_merge(m, tier):
     if len(t) == 1312:
         m['counters']['all_1312_triples_observed'] = 1
     return {'distinct_triples_observed': len(t), 'triples_total': 1312}
+
+
+def main_phase(tier, seed, rec):
+    """Thorough tier: the repository's own test-suite as one more workload under the same monitor."""
+    if tier == 'thorough':
+        common.suite_under_monitors({'C02'}, rec)
